@@ -322,7 +322,8 @@ const META: Meta = Meta {
 
 pub fn run(env: &Env, replay: Option<&Path>) -> i32 {
     let mut report = Report::new();
-    let subs: [&dyn DynSub; 4] = [&Honest, &Concurrent, &Triple, &ApiHistory];
+    let cold = crate::coldstart::ColdStart("C01");
+    let subs: [&dyn DynSub; 5] = [&Honest, &Concurrent, &Triple, &ApiHistory, &cold];
     if let Some(p) = replay {
         if let Err(e) = replay_file(env, &subs, p, &mut report) {
             eprintln!("harness: {}", e);
@@ -336,5 +337,8 @@ pub fn run(env: &Env, replay: Option<&Path>) -> i32 {
     drive(env, &Honest, env.tier.pick(12_000, 900_000), &mut report);
     drive(env, &Concurrent, env.tier.pick(3, 24), &mut report);
     drive(env, &ApiHistory, env.tier.pick(1_500, 60_000), &mut report);
+    // fresh processes whose threads make their first calls at the same moment
+    report.notes.push(crate::coldstart::NOTE.to_string());
+    drive(env, &cold, env.tier.pick(10, 200), &mut report);
     finish(env, report, &META)
 }
